@@ -2,5 +2,5 @@ INIT Init
 NEXT Next
 CONSTANTS
   Depth = 1
-  Shapes = {0, 1, 2, 3, 4, 5, 6}
+  Shapes = {0, 1, 2, 3, 4, 5, 6, 7, 8}
 INVARIANTS DesignOK EmitVec
